@@ -90,8 +90,11 @@ struct Slot {
 
 struct MSlot {
     int st = 0, type = 0, e = 0;
+    char origin = 'n';  // how the buffer of this field came to be: n new, c copied, v converted, l loaded (moves keep it)
     std::vector<int> vals;
 };
+static bool g_provenance = true;  // keep the construction path in the canonical state (hidden state such as the real
+                                  // allocation size can differ between a fresh and a converted field)
 
 enum Kind { NEW, WRITE, COPYC, MOVEC, COPYA, MOVEA, CONVC, CONVM, DUMPLOAD, DESTROY };
 static const char * KN[] = {"new", "write", "copyctor", "movector", "copyassign", "moveassign", "convert_copy", "convert_move", "dumpload", "destroy"};
@@ -247,6 +250,7 @@ static void apply_model(std::vector<MSlot> & M, const Op & op)
         A.st = 1;
         A.type = op.t;
         A.e = op.e;
+        A.origin = 'n';
         A.vals.assign(EXT[op.e][0] * EXT[op.e][1], 0);
         break;
     case WRITE: A.vals[op.c] = op.v; break;
@@ -254,7 +258,9 @@ static void apply_model(std::vector<MSlot> & M, const Op & op)
     case DUMPLOAD:
     case COPYA: {
         MSlot src = M[op.b];
+        const bool self = (op.kind == COPYA && op.a == op.b);
         A = src;
+        if (!self) A.origin = op.kind == DUMPLOAD ? 'l' : 'c';
         break;
     }
     case MOVEC:
@@ -276,6 +282,7 @@ static void apply_model(std::vector<MSlot> & M, const Op & op)
         A = src;
         A.st = 1;
         A.type = conv_partner(src.type);
+        A.origin = 'v';
         break;
     }
     case DESTROY:
@@ -336,7 +343,7 @@ static std::string canon(const std::vector<MSlot> & M)
         if (s.st == 0) x = "D";
         else if (s.st == 2) x = std::string("X") + TN[s.type];
         else {
-            x = std::string("L") + TN[s.type] + char('0' + s.e) + ":";
+            x = std::string("L") + TN[s.type] + char('0' + s.e) + (g_provenance ? std::string(1, s.origin) : std::string()) + ":";
             for (int v : s.vals) x += char('0' + v);
         }
         d.push_back(x);
@@ -489,7 +496,8 @@ int main(int argc, char ** argv)
     std::string mode = argc > 5 ? argv[5] : "bfs";
     size_t maxdepth = argc > 6 ? std::strtoul(argv[6], nullptr, 10) : 100;
     double budget_s = argc > 7 ? std::atof(argv[7]) : 1e9;
-    Report R("history/K" + std::to_string(K) + "/types" + std::to_string(g_ntypes) + "/" + mode);
+    g_provenance = !(argc > 8 && std::string(argv[8]) == "noprov");
+    Report R("history/K" + std::to_string(K) + "/types" + std::to_string(g_ntypes) + "/" + mode + (argc > 8 ? "/noprov" : ""));
     R.viol_cap = 3;
     std::signal(SIGALRM, watchdog);
     std::signal(SIGSEGV, on_fatal);
